@@ -118,6 +118,22 @@ func c04(ctx *Ctx) {
 			base := m.Docs(1)[0].V
 			return c04Docs(base, paths[sc.ID])
 		}})
+	// two schemas that map to the same Go type name and differ only in their required lists: each keeps its own list
+	var same []SCase
+	for i, pair := range [][2]A{{{"s"}, {"t"}}, {{"s"}, {}}, {{}, {"s"}}, {{"s", "t"}, {"s"}}} {
+		mk := func(r A) J {
+			o := J{"type": "object", "properties": J{"s": J{"type": "string"}, "t": J{"type": "integer"}}}
+			if len(r) > 0 {
+				o["required"] = r
+			}
+			return o
+		}
+		same = append(same, SCase{ID: fmt.Sprintf("C04/same-type-name/inline-vs-def/%d", i), Cfg: baseCfg(), Axes: map[string]string{"pos": "same-type-name", "leaf": fmt.Sprint(i)},
+			Schema: J{"type": "object", "properties": J{"a": J{"type": "object", "properties": J{"b": mk(pair[0])}}, "viaRef": J{"$ref": "#/$defs/SAB"}}, "$defs": J{"SAB": mk(pair[1])}}})
+		same = append(same, SCase{ID: fmt.Sprintf("C04/same-type-name/two-defs/%d", i), Cfg: baseCfg(), Axes: map[string]string{"pos": "same-type-name", "leaf": fmt.Sprint(i)},
+			Schema: J{"type": "object", "properties": J{"x": J{"$ref": "#/$defs/limits"}, "y": J{"$ref": "#/$defs/Limits"}}, "$defs": J{"limits": mk(pair[0]), "Limits": mk(pair[1])}}})
+	}
+	runBehaviour(ctx, behaviour{Name: "same-type-name", Cases: same, Devs: c04Devs, K: 1})
 	ctx.Run.Assume("a property that declares a default is never required (statement: 'and not given a default')",
 		"null for a required non-nullable property is outside the statement and not generated")
 }
